@@ -107,7 +107,23 @@ pub fn random_frame(r: &mut StdRng, nums: &[u16]) -> Vec<u8> {
 
 /// One piece of the buffer grammar of C05/C06.
 pub fn piece(r: &mut StdRng, nums: &[u16], out: &mut Vec<u8>) -> &'static str {
-    match r.gen_range(0..12) {
+    match r.gen_range(0..14) {
+        12 => {
+            // a frame at / next to the maximum length (payload 1019..=1023)
+            let l = r.gen_range(1019..=1023);
+            let p = random_payload(r, l);
+            out.extend(mk_frame(&p, 0));
+            "max-frame"
+        }
+        13 => {
+            // ... cut inside its last bytes (checksum region)
+            let l = r.gen_range(1019..=1023);
+            let p = random_payload(r, l);
+            let f = mk_frame(&p, 0);
+            let cut = f.len() - r.gen_range(1..=6);
+            out.extend(&f[..cut]);
+            "max-frame-truncated"
+        }
         0 | 1 | 2 => {
             out.extend(random_frame(r, nums));
             "frame"
